@@ -18,6 +18,16 @@
   RESI / EVEN nodes with several dates, whose *shallow* `Equals` ("some pair of dates is equal")
   is not transitive, are covered, because `DeepEqual` also matches the children.
   Reflexivity up to copying and every statement about copies hold without a guard.
+
+  Round 4.  The guard is characterised: `laws_iff_guard` / `guard_weakest` (for every `D` outside
+  the guard there are trees over `D` on which symmetry or permutation invariance fails — the
+  finding's matcher, `¬ dateEquiv` of the DATE values compared, is exactly the set on which the laws
+  can fail), `guard_of_plain` (it holds for all values without a before / after constraint),
+  `date_equals_symm_iff`, `symm_against_all_iff_plain` (table level: which pairs / which dates).
+  Copies: `World.run` — sequences of `DeepCopy` and `Filter`-with-a-tag-filter calls between
+  several documents with their record lists, pointer indexes and families caches
+  (`copies_documents_only_grow`, `copies_fresh_and_equal`, `copies_pairwise_disjoint`,
+  `copy_twice`, `copies_keep_caches_coherent`, `copy_roles_rehomed`, `filter_into_document`).
 -/
 import Gedcom.Lemmas.EqualLaws
 import Gedcom.Lemmas.Ident
